@@ -13,7 +13,8 @@ BUDGET = {'quick': 1500, 'thorough': 5000}
 RULE = ('Hypothesis-generated frame scripts over 2-4 recording WorldHandle subclasses (each load builds, with '
         'dispatching disabled as WorldHandle.load does, a world with recording processors before/after, '
         'OnUpdateProcessor, a scripted actor processor, a CoroutineProcessor running a scripted coroutine, and a '
-        'listener component for on_add, on_world_load, on_switch_in, on_switch_out, on_update, probe) run by a '
+        'listener component for on_add, on_world_load, on_switch_in, on_switch_out, on_update, probe; every other '
+        'handle loads a World subclass whose instances are falsy) run by a '
         'SimpleLoop on a generated clock: per frame one of nothing / switch(h, clear_current, clear_next) / raise '
         'SwitchWorld(h, ...) / dispatch a probe to another (possibly left) world, issued from a processor, from '
         'an on_update callback or from a coroutine; targets include the current handle, cached and not yet '
@@ -114,11 +115,29 @@ class Listener:
         self.run.act('on_update', self.world)
 
 
+class EmptyLookingWorld(desper.World):
+    """a legal World subclass whose instances are falsy objects (think __len__ = number of living things)"""
+
+    def __bool__(self):
+        return False
+
+
 class RecWorldHandle(desper.WorldHandle):
     def __init__(self, run, ix):
         super().__init__()
         self.run, self.ix = run, ix
         self.transform_functions.append(self.populate)
+
+    def load(self):
+        if self.ix % 2 == 0:
+            return super().load()
+        # same steps as WorldHandle.load, for a World subclass (WorldHandle builds desper.World itself)
+        world = EmptyLookingWorld()
+        world.dispatch_enabled = False
+        for transform_function in self.transform_functions:
+            transform_function(self, world)
+        world.dispatch('on_world_load', self, world)
+        return world
 
     def populate(self, handle, world):
         run = self.run
